@@ -48,15 +48,33 @@ int compint_to_size(zckCtx *zck, size_t *val, const char *compint,
     VALIDATE_BOOL(zck);
 
     *val = 0;
-    size_t old_val = 0;
     const unsigned char *i = (unsigned char *)compint;
     int count = 0;
     bool done = false;
     while(true) {
+        /* Make sure we're not reading past the end of the buffer or overflowing
+         * and fail if we do */
+        if(count >= MAX_COMP_SIZE || *length >= max_length) {
+            if(*length >= max_length)
+                set_fatal_error(zck, "Read past end of header");
+            else
+                set_fatal_error(zck, "Number too large");
+            *length -= count;
+            *val = 0;
+            return false;
+        }
         size_t c = i[0];
         if(c >= 128) {
             c -= 128;
             done = true;
+        }
+        /* The final byte only has room for the remaining high bits */
+        if(count == MAX_COMP_SIZE - 1 &&
+           c >= ((size_t)1 << (sizeof(size_t) * 8 - 7 * (MAX_COMP_SIZE - 1)))) {
+            set_fatal_error(zck, "Number too large");
+            *length -= count;
+            *val = 0;
+            return false;
         }
         /* There *must* be a more elegant way of doing c * 128**count */
         for(int f=0; f<count; f++)
@@ -67,17 +85,6 @@ int compint_to_size(zckCtx *zck, size_t *val, const char *compint,
         if(done)
             break;
         i++;
-        /* Make sure we're not overflowing and fail if we do */
-        if(count >= MAX_COMP_SIZE || count >= max_length || *val < old_val) {
-            if(count > max_length)
-                set_fatal_error(zck, "Read past end of header");
-            else
-                set_fatal_error(zck, "Number too large");
-            *length -= count;
-            *val = 0;
-            return false;
-        }
-        old_val = *val;
     }
     return true;
 }
